@@ -359,7 +359,7 @@ var c19ReservedPlaces = []string{"places", "statistics", "families", "individual
 
 // hostile pointers named by the property
 var c19HostilePtr = []string{"../x", "a/b", "places", "S/../x", "..", "/etc/passwd", "a b", "S1?x=1", "S#1", "x.html", "CON", "sources", "é", "a\\b", "S'1", "S\"1", "<S>", "S&1",
-	"individuals-a", "ann-smith", "S_1", "s1", "S.1", "%2e%2e", "S%2F1", "-", "_", "S\x011"}
+	"individuals-a", "ann-smith", "S_1", "s1", "S.1", "%2e%2e", "S%2F1", "-", "_", "S\x011", "Sé", "Sè", "д", "ж", "S_c3", "_70laces"}
 
 // c19Generate builds a family graph.  mode: "hostile" (hostile pointers, colliding names, odd
 // surnames), "collide" (few names and places that collapse to the same keys), "plain", "big".
@@ -1236,10 +1236,16 @@ func init() {
 		for i := 0; i < c.N(300, 20000); i++ {
 			srcPtrs = append(srcPtrs, c19Name(c.R))
 		}
+		pageOf := map[string]string{}
 		for _, p := range srcPtrs {
 			if page, ok := c19SourcePage(p); ok {
 				c.Tie("c19psrc "+hexs(p), hexs(page))
 				c.Eval()
+				if q, seen := pageOf[page]; seen && q != p {
+					c.Oracle("", "two sources with different pointers are written to the same file name",
+						map[string]string{"pointer": p, "other pointer": q, "gedcom": "0 @" + p + "@ SOUR\n0 @" + q + "@ SOUR\n"}, page, "one page per source")
+				}
+				pageOf[page] = p
 				if !c19Plain(page) {
 					c.Oracle("name:source-pointer-raw", "a source page name is not a plain name inside the output directory",
 						map[string]string{"pointer": p}, page, "a name without path separator")
